@@ -123,6 +123,18 @@ def note_others(ck, others):
 
 # ------------------------------------------------------------------ UCI sessions (SessionTrace monitor)
 def uci_sessions(ck, exe, n_scripts, cmds_per_script, perft_depth=2):
+    """the session part comes last in a check; when the engine does not survive a session (hang, crash) and the parts before it
+    have already reported discrepancies, those are the verdict and the session part is recorded as not completed"""
+    try:
+        return uci_sessions_run(ck, exe, n_scripts, cmds_per_script, perft_depth)
+    except InfraError as ex:
+        if not ck.viol:
+            raise
+        ck.notes.append("UCI session part not completed (%s); the discrepancies found before it stand" % str(ex).splitlines()[0][:200])
+        return [], {}
+
+
+def uci_sessions_run(ck, exe, n_scripts, cmds_per_script, perft_depth=2):
     """real Uci::loop sessions (position / moves / printboard / perft / go / isready / unknown commands) validated by SessionTrace.tla"""
     import random
     rnd = random.Random(core.seed() + 77)
@@ -406,6 +418,12 @@ def c07(tier):
     mates = write_roots_named(ck, ["roots_mate.fen"], "mate.fen")
     shards += trace(ck, exe, "games", "m", {"roots": mates, "games": 400 if full else 64, "maxply": 40, "shards": 16,
                                             "mv-pct": 0, "keys": 0, "repr": 0, "policy": 5})
+    # the position right after a special move (castling - preferably answering a double pawn push -, promotion, en-passant or
+    # other capture) made to occur three times: the keys stored in the history must be the keys the position has when it returns
+    spec_roots = write_roots_named(ck, ["roots_special.fen", "roots_general.fen"], "specials.fen")
+    open(spec_roots, "a").write("rnbqkbnr/pppppppp/8/8/8/8/PPPPPPPP/RNBQKBNR w KQkq - 0 1\nr3k2r/pppq1ppp/2npbn2/2b1p3/2B1P3/2NPBN2/PPPQ1PPP/R3K2R w KQkq - 0 1\n")
+    shards += trace(ck, exe, "games", "s", {"roots": spec_roots, "games": 1200 if full else 128, "maxply": 70, "shards": 16,
+                                            "mv-pct": 0, "keys": 0, "repr": 0, "policy": 7})
     viols, cnt = validate(ck, shards)
     need(cnt, ["pred_cmp", "n_rep", "n_rep3", "n_r50", "n_insuff", "n_check", "n_mate", "n_stale"], "C07 traces")
     take(ck, "C07", viols, others)
